@@ -352,6 +352,14 @@ class SimulatorBase(
         if isinstance(initial_state, SimulationStateBase):
             return initial_state
 
+        if isinstance(initial_state, value.ProductState) and set(initial_state.qubits) == set(
+            qubits
+        ):
+            # A product state names its qubits: write it down in the order of this simulation.
+            initial_state = initial_state.state_vector(
+                qubit_order=ops.QubitOrder.explicit(qubits)
+            )
+
         classical_data = value.ClassicalDataDictionaryStore()
         if self._split_untangled_states:
             args_map: dict[cirq.Qid | None, TSimulationState] = {}
